@@ -11,7 +11,7 @@ def _nontrivial(op, out):
 
 PROP = dict(
     lean_modules=["Octo.Props.C19", "Octo.Props.C02Nodes"],
-    required_theorems=["Octo.C19.final", "Octo.C19.consistent_at_wm", "Octo.C19.C19_full",
+    required_theorems=["Octo.C19.final", "Octo.C19.consistent_at_wm", "Octo.C19.no_panic", "Octo.C19.C19_full",
                        "Octo.C19.streamJoin_final", "Octo.C19.outerJoin_final",
                        "Octo.C19.switch_refuted", "Octo.C19.null_refuted",
                        "Octo.C02.streamJoin_is_sql_join", "Octo.C02.outerJoin_is_sql_outer_join",
@@ -32,9 +32,12 @@ PROP = dict(
                  "WatermarkMaxValue releases every buffered record)",
                  "join key expressions are column references (Variable{level 0, index i}); other expressions are covered only as far as "
                  "they are deterministic functions that respect value equality",
-                 "theorems are conditional on the run not panicking (run cfg sigma = ok out): a retraction of a row that is not "
-                 "present makes the Go code panic (EventTimes[1:] of an empty slice); that panic is modelled and compared, "
-                 "not excluded by a theorem",
+                 "final / consistent_at_wm are stated for runs that do not panic (run cfg sigma = ok out); no_panic proves that the "
+                 "run does not panic when every record has its key columns, records carrying an event time are insertions and the "
+                 "records without event time of each input are a valid changelog in arrival order. Outside that class (e.g. "
+                 "retractions with event times) a retraction of a row that is not (yet) in the tree makes the Go code panic "
+                 "(EventTimes[1:] of an empty slice); the panic is modelled and compared, and judged `bad` on inputs that are "
+                 "valid changelogs in event-time order",
                  "consistent_at_wm: every record carries an event time, watermarks per input are monotone and no record is late (Fresh)",
                  "OuterJoin: records have the field counts the node was constructed with",
                  "tidwall/btree and google/btree behave as ordered maps for a strict weak order (C09 supplies it)",
@@ -47,13 +50,14 @@ PROP = dict(
                "and closes (Interleave ls rs sigma, any length), if the node does not panic then (final) its consolidated output is "
                "the SQL inner / LEFT / RIGHT / FULL OUTER join of the complete inputs, and (consistent_at_wm) for inputs with "
                "monotone watermarks and no late records every forwarded watermark W comes after an output prefix that is the join "
-               "of the inputs up to W (Octo.C19.C19_full). The code before the two fix: commits is refuted by concrete schedules "
+               "of the inputs up to W; (no_panic) the node does not panic on append-only timed inputs / valid untimed changelogs "
+               "(Octo.C19.C19_full). The code before the two fix: commits is refuted by concrete schedules "
                "(switch_refuted, null_refuted). The model is tied to the code by running the real nodes under exactly chosen "
                "schedules (all interleavings of small scripts + random larger ones) and comparing the exact output sequence.",
     level_note="Trusted: Lean kernel; axioms propext, Classical.choice, Quot.sound; the correspondence harness incl. the "
-               "verifJoinRecv hook; Go runtime/select; btree libraries as ordered maps. Not proved: absence of panics (a "
-               "retraction of an absent row panics in the Go code; modelled and compared, and judged `bad` on inputs that are "
-               "valid changelogs). Key expressions are column references.",
+               "verifJoinRecv hook; Go runtime/select; btree libraries as ordered maps. Absence of panics is proved for "
+               "append-only timed inputs and valid untimed changelogs only (retractions carrying event times: modelled, compared "
+               "and judged, not proved). Key expressions are column references.",
     technique="Lean 4 proof (state invariant + induction over an explicit schedule) + model/implementation correspondence "
               "under exactly chosen schedules",
     design_ref="DESIGN.md §3 C19 (and §3 C02, node level)",
